@@ -796,4 +796,45 @@ theorem floatD_render_ne (f : FloatD) (hf : f.Ok) : f.render ≠ [] := by
   rw [h] at this
   simp [castFloat, hasOdd, splitSign, parseMantissa, lower] at this
 
+/-! ### the `!constant` and `$unit` line forms -/
+
+def constantWord : Str := ['!', 'c', 'o', 'n', 's', 't', 'a', 'n', 't']
+def unitWord : Str := ['$', 'u', 'n', 'i', 't']
+
+theorem determine_constant (k : Nat) (cm : Option (Nat × Str)) (hcm : NoEsc (renderComment cm)) :
+    determine (List.replicate k ' ' ++ (constantWord ++ renderComment cm)) = .ok { kind := .constant, indent := k } := by
+  have hw : NoEsc constantWord := by show ∀ c ∈ constantWord, c ≠ '\\' ∧ c ≠ '\n'; decide
+  have henc : encode (constantWord ++ renderComment cm) = '!' :: (['c', 'o', 'n', 's', 't', 'a', 'n', 't'] ++ renderComment cm) := by
+    rw [encode_noEsc _ (NoEsc_append hw hcm)]; rfl
+  rw [determine_indent k _ '!' _ henc (by decide) (by decide)]
+  have e : "!constant".toList = constantWord := by decide
+  have hb : determineBody ('!' :: (['c', 'o', 'n', 's', 't', 'a', 'n', 't'] ++ renderComment cm)) = .ok { kind := .constant } := by
+    unfold determineBody
+    simp only [e]
+    have hs : stripPrefix? constantWord ('!' :: (['c', 'o', 'n', 's', 't', 'a', 'n', 't'] ++ renderComment cm)) =
+        some (renderComment cm) := by
+      simp [stripPrefix?, constantWord]
+    simp only [hs, endOrComment_comment cm, if_true]
+  rw [hb]
+  rfl
+
+theorem determine_unitdef (k : Nat) (w : Char) (rest : Str) (hw : isWs w = true) (hr : NoEsc (w :: rest)) :
+    determine (List.replicate k ' ' ++ (unitWord ++ w :: rest)) = .ok { kind := .unit, indent := k } := by
+  have hu : NoEsc unitWord := by show ∀ c ∈ unitWord, c ≠ '\\' ∧ c ≠ '\n'; decide
+  have henc : encode (unitWord ++ w :: rest) = '$' :: (['u', 'n', 'i', 't'] ++ w :: rest) := by
+    rw [encode_noEsc _ (NoEsc_append hu hr)]; rfl
+  rw [determine_indent k _ '$' _ henc (by decide) (by decide)]
+  have e : "$unit".toList = unitWord := by decide
+  have hb : determineBody ('$' :: (['u', 'n', 'i', 't'] ++ w :: rest)) = .ok { kind := .unit } := by
+    unfold determineBody
+    simp only [e]
+    have hn : isNameCh '$' = false := by decide
+    have hs : stripPrefix? unitWord ('$' :: 'u' :: 'n' :: 'i' :: 't' :: w :: rest) = some (w :: rest) := by
+      simp [stripPrefix?, unitWord]
+    simp [hn]
+    rw [hs]
+    simp [hw]
+  rw [hb]
+  rfl
+
 end SciVerif.C13
